@@ -376,3 +376,205 @@ Proof.
     rewrite V3. pose proof (N.div_mod sub 256 ltac:(discriminate)).
     cbn [Nat.sub p256 firstn length octs4] in *. norm256. f_equal. f_equal; lia.
 Qed.
+
+(* ------------------------------------------------------------------ arithmetic of prefix lengths (0..32, finite) *)
+Definition diff8 (len : N) : N := (8 - len mod 8) mod 8.
+Definition len_facts (len : N) : bool :=
+  let d := diff8 len in
+  let nl := len + d in
+  let wg := N.to_nat (nl / 8) in
+  Nat.leb wg 4 && (N.of_nat wg =? nl / 8) && (2 ^ (32 - nl) =? p256 (4 - wg)) &&
+  (2 ^ (32 - len) =? 2 ^ d * 2 ^ (32 - nl)) && (2 ^ 32 =? 2 ^ len * 2 ^ (32 - len)).
+Lemma len_facts_ok len : len <= 32 -> len_facts len = true.
+Proof.
+  intros H. assert (C : forallb len_facts (nseq 33) = true) by (vm_compute; reflexivity).
+  rewrite forallb_forall in C. apply C. apply In_nseq. lia.
+Qed.
+
+Lemma filter_map_length {A B} (f : B -> bool) (g : A -> B) l :
+  length (filter f (map g l)) = length (filter (fun x => f (g x)) l).
+Proof. induction l as [|x l IH]; cbn [map filter]; [reflexivity|]. destruct (f (g x)); cbn [length]; congruence. Qed.
+
+(* exactly one of n consecutive blocks of size K starting at base contains a *)
+Lemma count_blocks (base K a : N) : 0 < K -> forall n : nat,
+  length (filter (fun sub => (sub <=? a) && (a <? sub + K)) (map (fun i => base + N.of_nat i * K) (seq 0 n)))
+  = if (base <=? a) && (a <? base + N.of_nat n * K) then 1%nat else 0%nat.
+Proof.
+  intros HK. induction n as [|n IH].
+  - cbn [seq map filter length]. change (N.of_nat 0) with 0. rewrite N.mul_0_l, N.add_0_r.
+    destruct (N.leb_spec base a), (N.ltb_spec a base); cbn; try reflexivity; lia.
+  - rewrite seq_S, map_app, filter_app, app_length, IH. cbn [Nat.add map filter].
+    rewrite Nat2N.inj_succ, N.mul_succ_l.
+    remember (N.of_nat n * K) as X eqn:EX. clear EX IH.
+    destruct (N.leb_spec base a), (N.ltb_spec a (base + X)), (N.leb_spec (base + X) a),
+      (N.ltb_spec a (base + X + K)), (N.ltb_spec a (base + (X + K))); cbn; try reflexivity; lia.
+Qed.
+
+Section V4.
+Variables (base len : N).
+Hypothesis Hwf : wf_net 32 base len.
+
+Let d := diff8 len.
+Let nl := len + d.
+Let wg := N.to_nat (nl / 8).
+Let K := p256 (4 - wg).
+
+Lemma v4_facts :
+  (wg <= 4)%nat /\ N.of_nat wg = nl / 8 /\ 2 ^ (32 - nl) = K /\
+  2 ^ (32 - len) = 2 ^ d * K /\ 2 ^ 32 = 2 ^ len * 2 ^ (32 - len).
+Proof.
+  destruct Hwf as [Hl _]. pose proof (len_facts_ok len Hl) as F. unfold len_facts in F.
+  fold d in F. fold nl in F. fold wg in F.
+  repeat (apply andb_true_iff in F; destruct F as [F ?]).
+  apply Nat.leb_le in F. repeat match goal with H : (_ =? _) = true |- _ => apply N.eqb_eq in H end.
+  unfold K. repeat split; try assumption. congruence.
+Qed.
+
+Lemma expand4_eq :
+  expand4 base len = map (fun i => pat4 (N.of_nat wg) (base + N.of_nat i * K)) (seq 0 (N.to_nat (2 ^ d))).
+Proof.
+  destruct v4_facts as [_ [E1 [E2 _]]].
+  unfold expand4, subnets, nseq. fold (diff8 len). fold d. fold nl. rewrite E2, <- E1.
+  rewrite !map_map. reflexivity.
+Qed.
+
+Lemma base_multiple : exists q, base = q * (2 ^ d * K) /\ q < 2 ^ len.
+Proof.
+  destruct v4_facts as [_ [_ [_ [E3 E4]]]]. destruct Hwf as [_ [Hb Hm]].
+  rewrite E3 in Hm. pose proof (N.div_mod base (2 ^ d * K)) as DM.
+  assert (Hpos : 2 ^ d * K <> 0).
+  { rewrite <- E3. apply N.pow_nonzero. discriminate. }
+  specialize (DM Hpos). rewrite Hm, N.add_0_r in DM.
+  exists (base / (2 ^ d * K)). split; [lia|].
+  rewrite E4, E3 in Hb. nia.
+Qed.
+
+Lemma K_pos : 0 < K.
+Proof. apply p256_pos. Qed.
+
+Lemma subnet_ok i : N.of_nat i < 2 ^ d ->
+  let sub := base + N.of_nat i * K in sub < 4294967296 /\ sub mod K = 0 /\
+  base <= sub /\ sub + K <= base + 2 ^ (32 - len).
+Proof.
+  intros Hi sub. destruct base_multiple as [q [Eb Hq]].
+  destruct v4_facts as [_ [_ [_ [E3 E4]]]]. pose proof K_pos as HK.
+  change 4294967296 with (2 ^ 32). rewrite E4, E3.
+  repeat split.
+  - unfold sub. nia.
+  - unfold sub. rewrite Eb. replace (q * (2 ^ d * K) + N.of_nat i * K) with ((q * 2 ^ d + N.of_nat i) * K) by ring.
+    apply N.mod_mul. lia.
+  - unfold sub. nia.
+  - unfold sub. nia.
+Qed.
+
+Lemma pat4_matches i a : N.of_nat i < 2 ^ d -> a < 2 ^ 32 ->
+  pat_matches (pat4 (N.of_nat wg) (base + N.of_nat i * K)) (show4 a)
+  = ((base + N.of_nat i * K <=? a) && (a <? base + N.of_nat i * K + K)).
+Proof.
+  intros Hi Ha. destruct (subnet_ok i Hi) as [S1 [S2 _]].
+  destruct v4_facts as [Hw _].
+  pose proof (pattern_range4_pat4 wg _ Hw S1 S2) as R.
+  pose proof (pattern_range4_ok _ _ _ R a Ha) as M.
+  apply Bool.eq_iff_eq_true. rewrite M. rewrite andb_true_iff, N.leb_le, N.ltb_lt. reflexivity.
+Qed.
+
+(* every address is matched by exactly one pattern if it is in the network, by none otherwise *)
+Lemma v4_exact_unique a : a < 2 ^ 32 ->
+  length (filter (fun p => pat_matches p (show4 a)) (expand4 base len))
+  = if in_netb 32 base len a then 1%nat else 0%nat.
+Proof.
+  intros Ha. rewrite expand4_eq, filter_map_length.
+  rewrite (filter_ext_in _ (fun i => (base + N.of_nat i * K <=? a) && (a <? base + N.of_nat i * K + K))).
+  - pose proof (count_blocks base K a K_pos (N.to_nat (2 ^ d))) as C.
+    rewrite filter_map_length in C. rewrite C. rewrite N2Nat.id.
+    destruct v4_facts as [_ [_ [_ [E3 _]]]]. unfold in_netb. rewrite E3. reflexivity.
+  - intros i Hi. apply in_seq in Hi. apply pat4_matches; [lia | exact Ha].
+Qed.
+
+Lemma v4_exact a : a < 2 ^ 32 ->
+  ((exists p, In p (expand4 base len) /\ pat_matches p (show4 a) = true) <-> in_net 32 base len a).
+Proof.
+  intros Ha. pose proof (v4_exact_unique a Ha) as U.
+  assert (R : in_netb 32 base len a = true <-> in_net 32 base len a).
+  { unfold in_netb, in_net. rewrite andb_true_iff, N.leb_le, N.ltb_lt. reflexivity. }
+  rewrite <- R. split.
+  - intros [p [Hin Hm]]. destruct (in_netb 32 base len a); [reflexivity|].
+    assert (In p (filter (fun p => pat_matches p (show4 a)) (expand4 base len))) as Hf
+      by (apply filter_In; auto).
+    destruct (filter _ (expand4 base len)); [contradiction | discriminate].
+  - intros E. rewrite E in U.
+    destruct (filter (fun p => pat_matches p (show4 a)) (expand4 base len)) as [|p l] eqn:F; [discriminate|].
+    assert (In p (p :: l)) as Hp by (left; reflexivity). rewrite <- F in Hp. apply filter_In in Hp.
+    exists p. exact Hp.
+Qed.
+
+Lemma v4_count : length (expand4 base len) = N.to_nat (2 ^ diff8 len).
+Proof. rewrite expand4_eq, map_length, seq_length. reflexivity. Qed.
+
+(* every pattern matches an address of the network (its subnet address): none is redundant *)
+Lemma v4_witness p : In p (expand4 base len) ->
+  exists a, a < 2 ^ 32 /\ in_net 32 base len a /\ pat_matches p (show4 a) = true.
+Proof.
+  rewrite expand4_eq. intros Hin. apply in_map_iff in Hin. destruct Hin as [i [<- Hi]].
+  apply in_seq in Hi. assert (Hi' : N.of_nat i < 2 ^ d) by lia.
+  destruct (subnet_ok i Hi') as [S1 [S2 [S3 S4]]]. pose proof K_pos.
+  exists (base + N.of_nat i * K). split; [exact S1|]. split; [unfold in_net; lia|].
+  rewrite pat4_matches by assumption. apply andb_true_iff. rewrite N.leb_le, N.ltb_lt. lia.
+Qed.
+End V4.
+
+Lemma NoDup_of_unique {A} (l : list A) :
+  (forall x, In x l -> exists f : A -> bool, f x = true /\ (length (filter f l) <= 1)%nat) -> NoDup l.
+Proof.
+  induction l as [|y l IH]; intros H; constructor.
+  - intros Hy. destruct (H y (or_introl eq_refl)) as [f [Fy Hl]].
+    cbn [filter] in Hl. rewrite Fy in Hl. cbn [length] in Hl.
+    assert (In y (filter f l)) as Hf by (apply filter_In; auto).
+    destruct (filter f l); [contradiction | cbn [length] in Hl; lia].
+  - apply IH. intros x Hx. destruct (H x (or_intror Hx)) as [f [Fx Hl]].
+    exists f. split; [exact Fx|]. cbn [filter] in Hl. destruct (f y); cbn [length] in Hl; lia.
+Qed.
+
+Lemma v4_nodup base len : wf_net 32 base len -> NoDup (expand4 base len).
+Proof.
+  intros Hwf. apply NoDup_of_unique. intros p Hp.
+  destruct (v4_witness base len Hwf p Hp) as [a [Ha [_ Hm]]].
+  exists (fun p => pat_matches p (show4 a)). split; [exact Hm|].
+  rewrite (v4_exact_unique base len Hwf a Ha). destruct (in_netb 32 base len a); lia.
+Qed.
+
+Lemma v4_irredundant base len : wf_net 32 base len ->
+    (forall a, a < 2 ^ 32 ->
+       length (filter (fun p => pat_matches p (show4 a)) (expand4 base len))
+       = if in_netb 32 base len a then 1%nat else 0%nat) /\
+    (forall p, In p (expand4 base len) ->
+       exists a, a < 2 ^ 32 /\ in_net 32 base len a /\ pat_matches p (show4 a) = true) /\
+    NoDup (expand4 base len).
+Proof.
+  intros H. split; [exact (v4_exact_unique base len H) | split; [exact (v4_witness base len H) | exact (v4_nodup base len H)]].
+Qed.
+
+(* ------------------------------------------------------------------ IPv6: a scoped /128 crashes *)
+(* fe80::1%eth0/128: subnets() yields the network itself, the address text carries the scope id,
+   the broadcast text does not, and the comparison loop indexes past its end (IndexError) *)
+Lemma v6_scoped_host_crash :
+  exists s a sc, parse_cidr s = Some (Net6 a 128 (Some sc)) /\ cidr_expand s = Crash C_IndexError.
+Proof.
+  exists [102;101;56;48;58;58;49;37;101;116;104;48;47;49;50;56]. eexists. eexists.
+  split; vm_compute; reflexivity.
+Qed.
+
+(* ------------------------------------------------------------------ IPv6: the coverage statement is false *)
+(* 2001:db8::/64 expands to the single pattern "2001:db8::", which does not match 2001:db8::1 *)
+Lemma v6_cover_refuted :
+  exists a len x pats,
+    wf_net 128 a len /\ in_net 128 a len x /\
+    expand6 a len None = Ok pats /\ covered pats (show6 x) = false.
+Proof.
+  exists 42540766411282592856903984951653826560, 64, 42540766411282592856903984951653826561.
+  eexists. split; [|split; [|split]].
+  - unfold wf_net. repeat split; try (vm_compute; congruence).
+  - unfold in_net. split; vm_compute; congruence.
+  - vm_compute. reflexivity.
+  - vm_compute. reflexivity.
+Qed.
